@@ -72,6 +72,8 @@ def run(chk):
                site=C.site(C.body(w, f_), h_), sample={"fn": f_, "element": ety, "table": {str(k_): sorted(v_) for k_, v_ in table.items()}})
 
     fmt.slot_range_rule(chk, w, "R04.4", WP, 2)
+    fmt.append_only_rule(chk, w, "R04.4", WP)
+    fmt.tag_flatten_rule(chk, w, "R04.4", parser)
     fmt.text_scan_rule(chk, w, "R04.1", parser)
     # ---- tag count taken after the last tag was recorded
     coll, counts, late = fmt.tag_count_order(w, parser)
@@ -109,9 +111,43 @@ def run(chk):
                     if v[1] == ord("/"):
                         continue
                     copies.setdefault(e[1], {}).setdefault(lab[0], set()).add(v[1])
+    # a copy of the table may live in a closure that yields the symbol (`flat_map(|(c, b)| [symbol(b), c])`): the constants of
+    # its return value per label
+    def _consts(v, acc, depth=0):
+        if depth > 6 or not isinstance(v, tuple):
+            return
+        if len(v) == 2 and v[0] in ("ch", "i") and isinstance(v[1], int):
+            acc.add(v[1])
+            return
+        for x in v:
+            if isinstance(x, tuple):
+                _consts(x, acc, depth + 1)
+    for k_ in C.closure_keys(w, WP):
+        cb_ = w.body(k_)
+        if cb_ is None:
+            continue
+        ci_ = absint.Interp(w, cb_, models=effects.EXTRA_MODELS)
+        try:
+            couts_ = ci_.run(0)
+        except absint.Undecided:
+            continue
+        for o in couts_:
+            if o.kind != "return":
+                continue
+            lab = [c[2] for s_, c in o.cons.items() if c[0] == "varis" and c[1] == C.CB]
+            if len(lab) != 1:
+                continue
+            acc = set()
+            _consts(ci_.resolve(o, o.value_at((("L", 0),))), acc)
+            # an array literal is opaque to the interpreter: the symbol chosen for the label is then the value of a local
+            for k2, v2 in o.env.items():
+                if len(k2) == 1 and k2[0][0] == "L" and isinstance(v2, tuple) and len(v2) == 2 and v2[0] == "ch":
+                    acc.add(v2[1])
+            for ch in acc & ((P | {ord(" ")}) - {ord("/")}):
+                copies.setdefault(k_, {}).setdefault(lab[0], set()).add(ch)
     # group by the block that pushes: every copy must be a total injective map
     maps = []
-    for bb, m in sorted(copies.items()):
+    for bb, m in sorted(copies.items(), key=lambda kv: str(kv[0])):
         if set(m) == {"WordBoundary", "NotWordBoundary", "Unknown"} and all(len(v) == 1 for v in m.values()):
             mm = {k: list(v)[0] for k, v in m.items()}
             if len(set(mm.values())) == 1 and list(mm.values())[0] not in parser_map:
@@ -122,7 +158,7 @@ def run(chk):
         inv_ok = all(parser_map.get(ch) == lab for lab, ch in m.items()) and len(set(m.values())) == 3
         chk.ob("R04.2", "writer-copy[%d]:inverse-of-parser" % k, inv_ok,
                "writer maps labels to symbols %s; the parser maps symbols to labels %s: not inverse" % ({k_: chr(v) for k_, v in m.items()}, {chr(k_): v for k_, v in parser_map.items()}),
-               site=C.site(wb, bb), sample={"writer": {k_: chr(v) for k_, v in m.items()}})
+               site=C.site(wb, bb if isinstance(bb, int) else None), sample={"writer": {k_: chr(v) for k_, v in m.items()}})
     if len(maps) >= 2:
         chk.ob("R04.2", "twin(T13)", all(m == maps[0][1] for _, m in maps), "the two copies of the label->symbol table in the writer disagree", site=C.site(wb))
     chk.ob("R04.2", "parser:total", set(parser_map.values()) == {"WordBoundary", "NotWordBoundary", "Unknown"} and len(parser_map) == 3,
